@@ -62,63 +62,39 @@ Proof. exact where_pitfall. Qed.
 Print Assumptions C18_where_pitfall_refuted.
 
 (* ---------- Safe of every formula as coded, at ALL real inputs and ALL valid parameters ---------- *)
-Theorem C18_leaky_inv_safe : forall m g ic y, g <> 0 ->
-  Safe (en_of [y; m; g; ic]) (leaky_inv_t (Var 1) (Var 2) (Var 3) (Var 0)).
-Proof. exact leaky_inv_safe_all. Qed.
-Print Assumptions C18_leaky_inv_safe.
+(* (the per-formula lemmas leaky_inv_safe, leaky_fwd_safe, rqs_fwd_safe, rqs_deriv_safe, rqs_inv_safe, softplus_inv_safe, ...
+   of Proofs/SafeP.v are compositional -- the input may be any Safe term; here they are grouped per class) *)
+(* LeakyTanh: every real x and max_val, linear_grad > 0 (the constructor's exp(...) always is) *)
+Theorem C18_leaky_safe : forall m g ic x, 0 < g ->
+  Safe (en_of [x; m; g; ic]) (leaky_inv_t (Var 1) (Var 2) (Var 3) (Var 0)) /\
+  Safe (en_of [x; m; g; ic]) (leaky_fwd_t (Var 1) (Var 2) (Var 3) (Var 0)) /\
+  Safe (en_of [x; m; g; ic]) (leaky_ld_fwd_t (Var 1) (Var 2) (Var 0)) /\
+  Safe (en_of [x; m; g; ic]) (leaky_ld_inv_t (Var 1) (Var 2) (Var 3) (Var 0)).
+Proof. exact leaky_safe_all. Qed.
+Print Assumptions C18_leaky_safe.
 
-Theorem C18_leaky_fwd_safe : forall m g ic x, Safe (en_of [x; m; g; ic]) (leaky_fwd_t (Var 1) (Var 2) (Var 3) (Var 0)).
-Proof. exact leaky_fwd_safe_all. Qed.
-Print Assumptions C18_leaky_fwd_safe.
+(* _tanh_log_grad everywhere; SoftPlus.inverse / Exp.inverse on y > 0; Tanh.inverse inside (-1,1); Affine with scale <> 0 *)
+Theorem C18_elementary_safe : forall loc scale y,
+  Safe (en_of [y]) (tanh_log_grad_t (Var 0)) /\
+  (0 < y -> Safe (en_of [y]) (softplus_inv_t (Var 0)) /\ Safe (en_of [y]) (softplus_ld_inv_t (Var 0)) /\
+            Safe (en_of [y]) (exp_inv_t (Var 0)) /\ Safe (en_of [y]) (exp_ld_inv_t (Var 0))) /\
+  (-1 < y < 1 -> Safe (en_of [y]) (tanh_inv_t (Var 0)) /\ Safe (en_of [y]) (tanh_ld_inv_t (Var 0))) /\
+  (scale <> 0 -> Safe (en_of [y; loc; scale]) (affine_inv_t (Var 1) (Var 2) (Var 0)) /\
+                 Safe (en_of [y; loc; scale]) (affine_ld_t (Var 2))).
+Proof. exact elementary_safe_all. Qed.
+Print Assumptions C18_elementary_safe.
 
-Theorem C18_leaky_ld_fwd_safe : forall m g ic x, 0 < g -> Safe (en_of [x; m; g; ic]) (leaky_ld_fwd_t (Var 1) (Var 2) (Var 0)).
-Proof. exact leaky_ld_fwd_safe_all. Qed.
-Print Assumptions C18_leaky_ld_fwd_safe.
-
-Theorem C18_leaky_ld_inv_safe : forall m g ic y, 0 < g ->
-  Safe (en_of [y; m; g; ic]) (leaky_ld_inv_t (Var 1) (Var 2) (Var 3) (Var 0)).
-Proof. exact leaky_ld_inv_safe_all. Qed.
-Print Assumptions C18_leaky_ld_inv_safe.
-
-Theorem C18_softplus_inv_safe : forall y, 0 < y -> Safe (en_of [y]) (softplus_inv_t (Var 0)).
-Proof. exact softplus_inv_safe_pos. Qed.
-Print Assumptions C18_softplus_inv_safe.
-
-Theorem C18_exp_inv_safe : forall y, 0 < y -> Safe (en_of [y]) (exp_inv_t (Var 0)).
-Proof. exact exp_inv_safe_pos. Qed.
-Print Assumptions C18_exp_inv_safe.
-
-Theorem C18_affine_safe : forall loc scale y, scale <> 0 ->
-  Safe (en_of [y; loc; scale]) (affine_inv_t (Var 1) (Var 2) (Var 0)) /\ Safe (en_of [y; loc; scale]) (affine_ld_t (Var 2)).
-Proof. exact affine_inv_safe_all. Qed.
-Print Assumptions C18_affine_safe.
-
-Theorem C18_tanh_log_grad_safe : forall x, Safe (en_of [x]) (tanh_log_grad_t (Var 0)).
-Proof. exact tanh_log_grad_safe_all. Qed.
-Print Assumptions C18_tanh_log_grad_safe.
-
-(* the spline: knots strictly increasing from lo to hi in both arrays, positive derivatives, lo <= 0 <= hi *)
-Theorem C18_rqs_fwd_safe : forall xp yp dv lo hi x, rqs_valid xp yp dv lo hi ->
-  Safe (en3 x lo hi xp yp dv) (rqs_fwd_t 3 (Var 1) (Var 2) (Var 0)).
-Proof. exact rqs_fwd_safe_all. Qed.
-Print Assumptions C18_rqs_fwd_safe.
-
-Theorem C18_rqs_deriv_safe : forall xp yp dv lo hi x, rqs_valid xp yp dv lo hi ->
-  Safe (en3 x lo hi xp yp dv) (rqs_deriv_t 3 (Var 1) (Var 2) (Var 0)) /\
-  0 < eval ROps (en3 x lo hi xp yp dv) (rqs_deriv_t 3 (Var 1) (Var 2) (Var 0)).
-Proof. exact rqs_deriv_safe_all. Qed.
-Print Assumptions C18_rqs_deriv_safe.
-
-(* full strength (not _partial): the strict positivity of the discriminant is proved, not assumed *)
-Theorem C18_rqs_inv_safe : forall xp yp dv lo hi y, rqs_valid xp yp dv lo hi ->
-  Safe (en3 y lo hi xp yp dv) (rqs_inv_t 3 (Var 1) (Var 2) (Var 0)).
-Proof. exact rqs_inv_safe_all. Qed.
-Print Assumptions C18_rqs_inv_safe.
-
-Theorem C18_rqs_ld_inv_safe : forall xp yp dv lo hi y, rqs_valid xp yp dv lo hi ->
-  Safe (en3 y lo hi xp yp dv) (rqs_ld_inv_t 3 (Var 1) (Var 2) (Var 0)).
-Proof. exact rqs_ld_inv_safe_all. Qed.
-Print Assumptions C18_rqs_ld_inv_safe.
+(* the spline: knots strictly increasing from lo to hi in both arrays, positive derivatives, lo <= 0 <= hi; EVERY real x
+   (interval ends, knots, out of bounds).  rqs_inv at full strength (not _partial): the strict positivity of the
+   discriminant b^2 - 4ac = (dk(Dy-t) - dk1 t)^2 + 4 s^2 t (Dy-t) and -b - sqrt(..) < 0 are proved, not assumed *)
+Theorem C18_rqs_safe : forall xp yp dv lo hi x, rqs_valid xp yp dv lo hi ->
+  let en := en3 x lo hi xp yp dv in
+  Safe en (rqs_fwd_t 3 (Var 1) (Var 2) (Var 0)) /\
+  Safe en (rqs_deriv_t 3 (Var 1) (Var 2) (Var 0)) /\ 0 < eval ROps en (rqs_deriv_t 3 (Var 1) (Var 2) (Var 0)) /\
+  Safe en (rqs_inv_t 3 (Var 1) (Var 2) (Var 0)) /\
+  Safe en (rqs_ld_inv_t 3 (Var 1) (Var 2) (Var 0)).
+Proof. exact rqs_safe_all. Qed.
+Print Assumptions C18_rqs_safe.
 
 (* ---------- the property on the model: log_prob of Transformed(base, leaf | Invert(leaf)) ---------- *)
 (* every leaf, both orientations, StandardNormal or Normal(loc, scale) base: value finite, gradient w.r.t. the input,
@@ -130,20 +106,17 @@ Theorem C18_log_prob_finite : forall (en : env R) l inverted normal,
 Proof. exact lp_finite. Qed.
 Print Assumptions C18_log_prob_finite.
 
-Theorem C18_leaky_log_prob_finite : forall inverted normal x m bloc bscale, (normal = true -> bscale <> 0) ->
-  let en := en10 x m (leaky_grad ROps m) (leaky_icpt ROps m) 0 0 0 1 bloc bscale [] [] [] in
-  (exists v, eval OROps (lift en) (lp_t LLeaky inverted normal) = Some v) /\
-  (forall t, exists r, vjp OROps (lift en) (lp_t LLeaky inverted normal) (Some 1) t = Some r).
-Proof. exact leaky_log_prob_finite. Qed.
-Print Assumptions C18_leaky_log_prob_finite.
-
-Theorem C18_rqs_log_prob_finite : forall inverted normal x lo hi bloc bscale xp yp dv,
-  rqs_valid xp yp dv lo hi -> (normal = true -> bscale <> 0) ->
-  let en := en10 x 0 1 0 lo hi 0 1 bloc bscale xp yp dv in
-  (exists v, eval OROps (lift en) (lp_t LRqs inverted normal) = Some v) /\
-  (forall t, exists r, vjp OROps (lift en) (lp_t LRqs inverted normal) (Some 1) t = Some r).
-Proof. exact rqs_log_prob_finite. Qed.
-Print Assumptions C18_rqs_log_prob_finite.
+(* spelled out for LeakyTanh(m) with the fields its constructor computes (every max_val) and for the spline *)
+Theorem C18_log_prob_finite_leaky_rqs : forall inverted normal x bloc bscale, (normal = true -> bscale <> 0) ->
+  (forall m, let en := en10 x m (leaky_grad ROps m) (leaky_icpt ROps m) 0 0 0 1 bloc bscale [] [] [] in
+     (exists v, eval OROps (lift en) (lp_t LLeaky inverted normal) = Some v) /\
+     (forall t, exists r, vjp OROps (lift en) (lp_t LLeaky inverted normal) (Some 1) t = Some r)) /\
+  (forall lo hi xp yp dv, rqs_valid xp yp dv lo hi ->
+     let en := en10 x 0 1 0 lo hi 0 1 bloc bscale xp yp dv in
+     (exists v, eval OROps (lift en) (lp_t LRqs inverted normal) = Some v) /\
+     (forall t, exists r, vjp OROps (lift en) (lp_t LRqs inverted normal) (Some 1) t = Some r)).
+Proof. exact log_prob_finite_instances. Qed.
+Print Assumptions C18_log_prob_finite_leaky_rqs.
 
 (* ---------- the formulas before the repairs are refuted ---------- *)
 (* D2: LeakyTanh.inverse without y_robust at y = 1: not Safe, finite value, gradient None *)
